@@ -454,8 +454,8 @@ def queue_reads(fn, field):
     return out
 
 
-def check_executor_loops(rep, core):
-    f = single(rep, 'R01.e', core, 'crux_core::capability::executor::QueuingExecutor::run_all')
+def check_executor_loops(rep, core, rid='R01.e'):
+    f = single(rep, rid, core, 'crux_core::capability::executor::QueuingExecutor::run_all')
     if f is not None:
         spawn_reads = queue_reads(f, 'spawn_queue')
         ready_reads = queue_reads(f, 'ready_queue')
@@ -464,7 +464,7 @@ def check_executor_loops(rep, core):
         ready_r = [bb for bb, e in ready_reads]
         ok_shape = bool(spawn_r) and bool(ready_r) and len(runs) >= 2 and all(e for _, e in spawn_reads + ready_reads)
         common = ok_shape and any(s_ in f.reachable_after(r_) for s_ in spawn_r for r_ in ready_r) and any(r_ in f.reachable_after(s_) for s_ in spawn_r for r_ in ready_r)
-        rep.expect('R01.e', common, 'run_all-one-loop', 'the spawn queue and the ready queue are read inside one common loop',
+        rep.expect(rid, common, 'run_all-one-loop', 'the spawn queue and the ready queue are read inside one common loop',
                    'run_all no longer reads both queues inside one loop (%d/%d reads, %d run_task calls)' % (len(spawn_r), len(ready_r), len(runs)))
         if ok_shape:
             rets = f.return_blocks()
@@ -493,13 +493,13 @@ def check_executor_loops(rep, core):
                     for vn in ('Suspended', 'Completed'):
                         tgt = next((b_ for v, b_ in st['arms'] if v == names.get(vn)), st['otherwise'])
                         ok_rd = ok_rd and bool(names) and quiescent_after([tgt])
-            rep.expect('R01.e', n_sp >= 1 and ok_sp, 'run_all-flag-after-spawned',
+            rep.expect(rid, n_sp >= 1 and ok_sp, 'run_all-flag-after-spawned',
                        'after running a newly spawned task, run_all returns only after finding both queues empty again',
                        'run_all can run a newly spawned task and return without looking at both queues again')
-            rep.expect('R01.e', n_rd >= 1 and ok_rd, 'run_all-flag-after-ready',
+            rep.expect(rid, n_rd >= 1 and ok_rd, 'run_all-flag-after-ready',
                        'after a woken task ran (Suspended / Completed), run_all returns only after finding both queues empty again',
                        'run_all: a task that ran (Suspended/Completed) does not force another look at both queues, so the loop may exit with work queued')
-    g = single(rep, 'R01.e', core, 'crux_core::command::Command::run_until_settled')
+    g = single(rep, rid, core, 'crux_core::command::Command::run_until_settled')
     if g is not None:
         spawn_new = [bb for bb, t in g.calls('crux_core::command::Command::spawn_new_tasks')]
         runs = [bb for bb, t in g.calls('crux_core::command::Command::run_task')]
@@ -507,10 +507,10 @@ def check_executor_loops(rep, core):
         empties = [bb for bb, t in g.calls('crossbeam_channel::channel::Receiver::is_empty')]
         rets = g.return_blocks()
         ok = bool(spawn_new) and bool(runs) and bool(empties)
-        rep.expect('R01.e', ok and all(g.all_paths_pass(r, rets, via_blocks=spawn_new + clears) for r in runs), 'settle-respawn',
+        rep.expect(rid, ok and all(g.all_paths_pass(r, rets, via_blocks=spawn_new + clears) for r in runs), 'settle-respawn',
                    'after any task ran, the spawn queue is re-read before the loop can exit',
                    'run_until_settled can exit after running a task without re-reading the spawn queue')
-        rep.expect('R01.e', ok and all(any(g.dominates(s, e) and s != e for s in spawn_new) for e in empties), 'settle-order',
+        rep.expect(rid, ok and all(any(g.dominates(s, e) and s != e for s in spawn_new) for e in empties), 'settle-order',
                    'spawn_new_tasks precedes the emptiness test of the ready queue',
                    'run_until_settled tests the ready queue before moving spawned tasks into it')
 
@@ -543,6 +543,9 @@ def check(ctx, rep):
     # eviction test discards the task and everything it would still have requested) — shared with C05 R05.c / C07 R07.d
     rep.rule('R01.g', 'every future crux provides keeps the current poll\'s waker when it stays Pending (a task that loses it is evicted and its later effects are lost)', floor=5)
     c05.check_pending_wakers(rep, 'R01.g', core, ctx.crate('default', 'crux_time'))
+    # R01.i: a task parked on a JoinHandle is woken whenever the joined task leaves the command, or everything it would still request is lost
+    rep.rule('R01.i', 'every task that leaves a command — finished, aborted or evicted — publishes `finished` and wakes its join handles', floor=2)
+    c07.check_finish_notify(rep, 'R01.i', core)
     # R01.h: outputs already produced are not thrown away when a hosted command ends (shared with C07 R07.a / R07.e)
     rep.rule('R01.h', 'a command reports done / ends its stream only when its effect and event queues are empty', floor=3)
     c07.check_is_done(rep, 'R01.h', core)
